@@ -103,8 +103,12 @@ Record rule := {
   r_id : string;
   r_res : string -> outcome (list viol);       (* what check() returns / raises on this file *)
   r_contrib : string -> list evid;             (* evidence check() has stored for this file when it returns or raises *)
-  r_final : list evid -> outcome (list viol)   (* finalize() on the accumulated store *)
+  r_final : list evid -> outcome (list viol);  (* finalize() on the accumulated store *)
+  r_cross : bool                               (* the rule overrides finalize() (a cross-file rule) *)
 }.
+
+(* a rule that keeps the inherited finalize() stores nothing *)
+Definition wf_rule (r : rule) : Prop := r_cross r = false -> forall p, r_contrib r p = [].
 
 Definition ok_or_nil {A} (o : outcome (list A)) : list A := match o with Ok l => l | Fail _ => [] end.
 
@@ -190,8 +194,8 @@ Definition run (q : cquirks) (rules : list rule) (files : list string) : run_res
   end.
 
 (* ------------------------------------------------------------------ the orchestrator, parallel path *)
-(* _lint_file_worker around lint_file, then _extract_violations_from_future around future.result():
-   a file whose lint_file raises loses ALL its cells *)
+(* _lint_file_worker around lint_file, then _extract_violations_from_future around future.result(): an exception
+   that both tables re-raise aborts the run; one that a table swallows costs the file ALL its cells *)
 Definition par_file (q : cquirks) (rules : list rule) (p : string) : outcome (list cell) * list logrec :=
   match lint_file q rules p with
   | (Ok cs, l) => (Ok cs, l)
@@ -221,14 +225,23 @@ Fixpoint par_all (q : cquirks) (rules : list rule) (files : list string) : outco
       end
   end.
 
-(* lint_files_parallel above the worker threshold: the parent's rule objects never see a file *)
+(* what the parent's rule objects have stored when it finalizes: with _collect_cross_file_evidence the cross-file rules
+   are run again in the parent over all files; without it the parent's rules never see a file *)
+Definition par_store (r : rule) (files : list string) : list evid :=
+  if par_parent_collects && r_cross r then store_of r files else [].
+
+(* lint_files_parallel above the worker threshold *)
 Definition run_par (q : cquirks) (rules : list rule) (files : list string) : run_result * list logrec :=
   match par_all q rules files with
   | (Fail e, l) => (Crashed e, l)
   | (Ok cs, l) =>
-      match finalize_all (guard_of "_finalize_rules") rules (fun _ => []) with
-      | (Fail e, l') => (Crashed e, l ++ l')
-      | (Ok fs, l') => (Completed cs fs, l ++ l')
+      match (if par_parent_collects then lint_all q (filter r_cross rules) files else (Ok [], [])) with
+      | (Fail e, l1) => (Crashed e, l ++ l1)
+      | (Ok _, l1) =>
+          match finalize_all (guard_of "_finalize_rules") rules (fun r => par_store r files) with
+          | (Fail e, l2) => (Crashed e, l ++ l1 ++ l2)
+          | (Ok fs, l2) => (Completed cs fs, l ++ l1 ++ l2)
+          end
       end
   end.
 
@@ -283,7 +296,8 @@ Definition staged_rule (id : string) (ops : list xop) (an : string -> string -> 
   {| r_id := id;
      r_res := fun p => match fst (run_ops ops (an p) [] []) with Ok _ => Ok [] | Fail e => Fail e end;
      r_contrib := fun p => snd (run_ops ops (an p) [] []);
-     r_final := fin |}.
+     r_final := fin;
+     r_cross := true |}.
 
 (* ------------------------------------------------------------------ language detection *)
 Definition is_dot (c : ascii) : bool := Ascii.eqb c "."%char.
@@ -352,7 +366,8 @@ Definition detect (name : string) (present : bool) (decodes : bool) (content : s
   match assoc (ext_of name) extension_map with
   | Some l => l
   | None =>
-      if present && cmp_nat shebang_size_cmp (String.length content) shebang_size_bound then
+      if (negb shebang_requires_no_ext || String.eqb (ext_of name) "")
+         && present && cmp_nat shebang_size_cmp (String.length content) shebang_size_bound then
         match (if decodes then shebang_lang (first_line content) else None) with
         | Some l => l
         | None => unknown_language
